@@ -20,6 +20,7 @@ RULE = ('output specs: port trees to depth 2 (thorough 3) over names {a, ab, n, 
         'dynamic / valid_type / validator on namespaces x emission sequences of length <=4 over declared, undeclared, nested and prefix-colliding '
         'paths of depth <=3 x values {1, "s", None, {}, nested dicts with good/bad leaves, class instances}; distinct by (spec, emissions); '
         'non-trivial when >=1 emission was accepted and >=1 rejected, or the success flag was downgraded')
+RULE += ('; also: list outputs mutated after acceptance, namespace validators objecting to the empty mapping, identity of the objects the future reports')
 ASSUMPTIONS = ['a fresh Process class per case (emitting into a dynamic namespace adds namespaces to the class spec)',
                'reference model written from the statement; namespace creation by earlier emissions is tracked by the model']
 REQUIRED = ['emissions', 'accepted', 'rejected', 'rejected_valueerror', 'dynamic_accepted', 'nested_paths', 'unchanged_checks', 'listener_checks',
